@@ -1,9 +1,8 @@
 // C14 harness: the Monte-Carlo integrators of libphysica under the seed hook (case grammar: checks/C14.py)
 //   stream  <seed> <k>                                    -> k draws of Sample_Uniform from std::mt19937(seed)
 //   mc      <call>                                        -> result neval digest min_0 max_0 ... (evaluation points)
-//   hist    <n> <call>*n <call>                           -> observed result in a fresh process, in this process before the n history
-//                                                            calls, after them; number of history calls that were aborted
-//                                                            calls that were aborted, number of calls that changed their caller's region vector, number of
+//   hist    <n> <element>*n <call>                        -> observed result in a fresh process, in this process before the n elements
+//                                                            of the history, after them; number of history calls that were aborted, number of calls that changed their caller's region vector, number of
 //                                                            draws of the history outside their limits, then neval digest min_0 max_0 ... of the observed call
 //                                                            after the history.  An element of the history is a <call> or a use of the sampling facility the
 //                                                            integrators draw from (Statistics: Sample_Uniform and the samplers built on it):
